@@ -230,7 +230,14 @@ func (u *Upgrader) Upgrade(w http.ResponseWriter, r *http.Request, responseHeade
 	p = append(p, "\r\n"...)
 	if c.subprotocol != "" {
 		p = append(p, "Sec-WebSocket-Protocol: "...)
-		p = append(p, c.subprotocol...)
+		for i := 0; i < len(c.subprotocol); i++ {
+			b := c.subprotocol[i]
+			if b <= 31 {
+				// prevent response splitting.
+				b = ' '
+			}
+			p = append(p, b)
+		}
 		p = append(p, "\r\n"...)
 	}
 	if compress {
